@@ -266,6 +266,6 @@ theorem inv_step {s : PeerSys} (a : Act) (h : Inv1 s) (he : enabled s a = true) 
 theorem inv_reach {s : PeerSys} (h : ReachP s) : Inv1 s := by
   induction h with
   | init => exact ⟨rfl, by simp, by intro k hk; simp at hk⟩
-  | step a _ he hp _ _ ih => exact inv_step a ih he hp
+  | step a _ he hp _ ih => exact inv_step a ih he hp
 
 end Litep2pVerif.Notif
